@@ -117,7 +117,29 @@ pub fn c02(args: &Args) -> Report {
         return replay_e1(args, mk);
     }
     let res = run_all(c02_scenarios(args.tier), mk, args.tier);
-    fold(res, &GEN, 0, json!({}))
+    with_conformance(fold(res, &GEN, 0, json!({})), &[(true, false)])
+}
+
+/// a small batch of real-daemon schedules validated against the E1 loop model, run with every E1
+/// check so that its evidence states how many model traces were validated against the implementation
+fn with_conformance(mut rep: Report, modes: &[(bool, bool)]) -> Report {
+    let mut agreed = 0;
+    let mut schedules = 0;
+    let mut steps = 0;
+    for (ack, closure) in modes {
+        let c = crate::props_e2::quick_conformance(*ack, *closure);
+        agreed += c.agreed;
+        schedules += c.schedules;
+        steps += c.steps;
+        for d in c.divergences {
+            rep.machinery_errors.push(format!("MODEL-DIVERGENCE: the real daemon loop and the E1 loop model disagree: {}", d));
+        }
+    }
+    if let Some(o) = rep.coverage.as_object_mut() {
+        o.insert("traces_validated_against_impl".into(), json!(agreed));
+        o.insert("conformance".into(), json!({"real_daemon_schedules": schedules, "agreed_with_loop_model": agreed, "real_loop_steps_replayed": steps, "deviation_bound": 1}));
+    }
+    rep
 }
 
 const GEN: [&str; 4] = ["panic", "codec", "deadlock", "livelock"];
@@ -176,7 +198,7 @@ pub fn c01(args: &Args) -> Report {
         scns.push(s);
     }
     let res = run_all(scns, mk, args.tier);
-    fold(res, &["panic", "codec"], 0, json!({}))
+    with_conformance(fold(res, &["panic", "codec"], 0, json!({})), &[(true, false), (false, false), (false, true)])
 }
 
 fn named(prefix: &str, ack: bool, closure: bool) -> String {
@@ -221,10 +243,23 @@ pub fn c03(args: &Args) -> Report {
             }
         }
     }
+    // a NAK prompt at every state (also after the receiver has finished or was cancelled)
+    for (imm, nm) in [(false, "def0"), (true, "imm0")] {
+        let mut p = Scenario::base(&format!("c03 ack nak={} max_count=2 prompt + F=1 du + blackout", nm));
+        p.nak_immediate = imm;
+        p.max_count = 2;
+        p.file_size = Some(17);
+        p.user = vec![(Side::S, UserOp::PromptNak, 1)];
+        p.faults = 1;
+        p.k_drop = true;
+        p.k_dup = true;
+        p.blackout = vec![LinkId::RS];
+        scns.push(p);
+    }
     let res = run_all(scns, mk, args.tier);
     let mut rep = fold(res, &GEN, 0, json!({}));
     rep.assumptions.push("fault handlers at their default (cancel) or Abandon; Ignore/Suspend overrides and user suspension are excluded by the property".into());
-    rep
+    with_conformance(rep, &[(true, false), (false, false), (false, true)])
 }
 
 pub fn c04(args: &Args) -> Report {
@@ -266,7 +301,7 @@ pub fn c04(args: &Args) -> Report {
     s.pre_files = vec![("log1".into(), "A".into()), ("log2".into(), "B".into())];
     scns.push(s);
     let res = run_all(scns, mk, args.tier);
-    fold(res, &["panic", "codec"], 0, json!({}))
+    with_conformance(fold(res, &["panic", "codec"], 0, json!({})), &[(true, false), (false, true)])
 }
 
 pub fn c18(args: &Args) -> Report {
@@ -298,7 +333,7 @@ pub fn c18(args: &Args) -> Report {
         }
     }
     let res = run_all(scns, mk, args.tier);
-    fold(res, &GEN, 0, json!({}))
+    with_conformance(fold(res, &GEN, 0, json!({})), &[(false, false), (false, true)])
 }
 
 pub fn c20(args: &Args) -> Report {
@@ -345,7 +380,7 @@ pub fn c20(args: &Args) -> Report {
     u.blackout = vec![LinkId::RS];
     scns.push(u);
     let res = run_all(scns, mk, args.tier);
-    fold(res, &["panic", "codec"], 0, json!({}))
+    with_conformance(fold(res, &["panic", "codec"], 0, json!({})), &[(true, false), (false, true)])
 }
 
 pub fn c10(args: &Args) -> Report {
@@ -381,7 +416,7 @@ pub fn c10(args: &Args) -> Report {
         }
     }
     let res = run_all(scns, mk, args.tier);
-    fold(res, &GEN, 0, json!({}))
+    with_conformance(fold(res, &GEN, 0, json!({})), &[(true, false), (false, false), (false, true)])
 }
 
 pub fn c19(args: &Args) -> Report {
@@ -409,7 +444,7 @@ pub fn c19(args: &Args) -> Report {
         }
     }
     let res = run_all(scns, mk, args.tier);
-    fold(res, &["panic", "codec", "livelock"], 0, json!({}))
+    with_conformance(fold(res, &["panic", "codec", "livelock"], 0, json!({})), &[(true, false), (false, false)])
 }
 
 fn nak_alphabet(size: u64, seg: u64, tier: Tier) -> Vec<InjectSpec> {
@@ -482,7 +517,7 @@ pub fn c07(args: &Args) -> Report {
     c.k_drop = true;
     scns.push(c);
     let res = run_all(scns, mk, args.tier);
-    fold(res, &["panic", "codec"], 0, json!({}))
+    with_conformance(fold(res, &["panic", "codec"], 0, json!({})), &[(true, false), (false, false)])
 }
 
 pub fn c08(args: &Args) -> Report {
@@ -518,7 +553,7 @@ pub fn c08(args: &Args) -> Report {
         scns.push(s);
     }
     let res = run_all(scns, mk, args.tier);
-    fold(res, &["panic", "codec"], 0, json!({}))
+    with_conformance(fold(res, &["panic", "codec"], 0, json!({})), &[(true, false)])
 }
 
 pub fn c17_e1(tier: Tier) -> Vec<ExploreResult> {
@@ -605,7 +640,7 @@ pub fn c17(args: &Args) -> Report {
         return replay_e1(args, mk);
     }
     let res = c17_e1(args.tier);
-    fold(res, &["panic", "codec"], 0, json!({}))
+    with_conformance(fold(res, &["panic", "codec"], 0, json!({})), &[(true, false), (false, true)])
 }
 
 /// debugging aid: vcheck DBG <file.json> with {"scenario":…, "histories":[[…],[…]]}
